@@ -188,7 +188,16 @@ def signature(obs):
     """Failure signature of a run that violates totality, or None."""
     o = obs.get("o")
     if o == "panic":
-        return "delta-panic", obs.get("panic") or "?"
+        key = obs.get("panic") or "?"
+        if "Number of parse nodes" in key:
+            # which capacity was exceeded?  The known defect is "5 + 2 * tokens is too small"; a node buffer that
+            # overflows with any other capacity is a different failure and must not hide behind it.
+            nc = [e for e in obs.get("ev") or [] if e.get("ev") == "nodecap"]
+            if nc and nc[0]["cap"] == 5 + 2 * nc[0]["toks"]:
+                key += " (capacity 5 + 2*tokens)"
+            elif nc:
+                key += " (capacity %d for %d tokens)" % (nc[0]["cap"], nc[0]["toks"])
+        return "delta-panic", key
     if o in ("crash", "timeout"):
         return "delta-crash", obs.get("how") or o
     return None
@@ -265,7 +274,7 @@ def run(rep, tier, seed, selftest):
     emitted = d_desc + s_desc
     # a sample of the emitted cases is recorded with all hook events and trace-validated as well
     sample = set(rnd.sample(range(len(emitted)), min(TRACE_SAMPLE[tier], len(emitted))))
-    obs_e = delta_util.run_cases("C15", "emitted", emitted, events=True, evfilter=["toklen", "nodelen", "nodefull"])
+    obs_e = delta_util.run_cases("C15", "emitted", emitted, events=True, evfilter=["toklen", "nodecap", "nodelen", "nodefull"])
     failures = {}     # (kind, signature) -> list of (size, desc, obs)
     problems = []
     nontrivial = set()
